@@ -96,6 +96,11 @@ func simStats(cs *compState) {
 		})
 	}
 	reason := cs.runUntilQuiet(nil)
+	if reason == "max-steps" && !k.Spun() {
+		k.Probe("comp-step-budget-exhausted")
+		k.Drain()
+		return
+	}
 	if reason != "done" {
 		k.Violate("C17", "progress", "stats-call-blocked", fmt.Sprintf("%s: %v", reason, k.ParkedSummary()))
 		k.Drain()
